@@ -91,6 +91,7 @@ def main():
         ("ger", lambda: torch.ger(X[0], Y[1]), lambda: torch.ger(x[0], y[1])),
         ("diag", lambda: torch.diag(X[0]) + torch.diag(torch.diag(W)), lambda: torch.diag(x[0]) + torch.diag(torch.diag(w))),
         ("inverse", lambda: torch.inverse(W), lambda: torch.inverse(w)),
+        ("exp_/neg_/tanh_ (in place)", lambda: (X * 0.1).exp_().neg_().tanh_(), lambda: (x * 0.1).exp_().neg_().tanh_()),
         ("slogdet", lambda: torch.slogdet(W)[1], lambda: torch.slogdet(w)[1]),
         ("solve_triangular", lambda: torch.linalg.solve_triangular(torch.triu(w), X.t(), upper=True), lambda: torch.linalg.solve_triangular(torch.triu(w), x.t(), upper=True)),
         ("lu_solve", lambda: torch.lu_solve(X.t(), *torch.lu(W)), lambda: torch.lu_solve(x.t(), *torch.linalg.lu_factor(w))),
